@@ -71,8 +71,106 @@ fn fake_header(net: NetID, height: u64, salt: u8) -> Header {
     }
 }
 
+/// F23: mints carrying proofs written by `refpow::forge` - a handful of hash evaluations instead of 2^difficulty
+/// sequential ones. On a natural chain (real genesis, real blocks, DOSC speed 10^6), for both hash functions, at
+/// difficulties whose graph can still be labelled honestly (so the forged labels can be compared with the true ones)
+/// and at difficulties nobody could have worked for (40, 56). A mint that creates the full reward against such a
+/// proof violates "only against valid sequential work".
+fn forged_probes(p: &Params, rep: &mut Report) {
+    if p.shard != 0 || p.only_case.is_some() {
+        return;
+    }
+    let small: &[usize] = if p.thorough { &[6, 10, 14, 17] } else { &[6, 10, 13] };
+    let cases: Vec<(usize, bool)> = [(40usize, false), (56usize, false)].into_iter().chain(small.iter().map(|d| (*d, true))).collect();
+    for net in [NetID::Mainnet, NetID::Custom02] {
+        for tip910 in [false, true] {
+            for (d, comparable) in &cases {
+                let d = *d;
+                let key = key_n(0xF23 + d as u64, 1);
+                let cov = ed25519_new_cov(&key.pk);
+                let coin_val: u128 = 1 << 40;
+                // a real chain: genesis, then enough empty blocks for the mainnet age rule
+                let db = new_db();
+                let genesis = melstf::GenesisConfig {
+                    network: net,
+                    init_coindata: CoinData { covhash: addr_of(&cov), value: CoinValue(coin_val), denom: Denom::Mel, additional_data: Bytes::new() },
+                    stakes: Default::default(),
+                    init_fee_pool: CoinValue(0),
+                    init_fee_multiplier: 0,
+                };
+                let blocks = if net == NetID::Mainnet { 100 } else { 3 };
+                let made = guarded(move || {
+                    let mut s = genesis.realize(&db).seal(None);
+                    for _ in 1..blocks {
+                        s = s.next_unsealed().seal(None);
+                    }
+                    s
+                });
+                let sealed = match made {
+                    Ok(s) => s,
+                    Err(_) => continue,
+                };
+                let coin_id = CoinID::zero_zero();
+                let hdr0 = match sealed.history(BlockHeight(0)) {
+                    Some(x) => x,
+                    None => continue,
+                };
+                let puzzle = tmelcrypt::hash_keyed(hdr0.hash(), &stdcode::serialize(&coin_id).unwrap());
+                let forged = crate::refpow::forge(&puzzle.0, d, tip910);
+                // how the forged labels compare with the labels of the graph
+                let (same, listed) = if *comparable {
+                    let honest = crate::refpow::honest_units(&puzzle.0, d, tip910);
+                    let same = forged.bytes.chunks(40).filter(|u| honest.get(&u[..8]).map(|l| l[..] == u[8..]).unwrap_or(false)).count();
+                    (same as i64, honest.len() as i64)
+                } else {
+                    (-1, -1)
+                };
+                let apply_h = sealed.header().height.0 + 1;
+                let age = apply_h;
+                let work: u128 = (1u128 << d) * if tip910 { 100 } else { 1 };
+                let speed = work / age as u128;
+                let prev_speed = sealed.header().dosc_speed;
+                let nominal = crate::model::big_to_u128_sat(&dosc_to_erg(apply_h, &reward_real(speed, prev_speed, d as u32, tip910))).min(MAX_COINVAL);
+                let mut tx = Transaction {
+                    kind: TxKind::DoscMint,
+                    inputs: vec![coin_id],
+                    outputs: vec![
+                        CoinData { covhash: addr_of(&cov), value: CoinValue(coin_val), denom: Denom::Mel, additional_data: Bytes::new() },
+                        CoinData { covhash: addr_of(&cov), value: CoinValue(nominal), denom: Denom::Erg, additional_data: Bytes::new() },
+                    ],
+                    fee: CoinValue(0),
+                    covenants: vec![Bytes::from(cov.clone())],
+                    data: Bytes::from(stdcode::serialize(&(d as u32, forged.bytes.clone())).unwrap()),
+                    sigs: vec![],
+                };
+                tx.sigs = vec![Bytes::from(key.sk.sign(&tx.hash_nosigs().0 .0))];
+                let mut st = sealed.next_unsealed();
+                let t2 = tx.clone();
+                rep.eval();
+                rep.nontrivial(fnv(&tx.hash_nosigs().0 .0));
+                rep.count("forged proofs offered (labels made up, one hash per challenged leaf)");
+                let res = guarded(move || st.apply_tx(&t2).map(|_| st.seal(None).header().dosc_speed));
+                if let Ok(Ok(new_speed)) = res {
+                    // with labels that can be compared: a proof whose labels are those of the graph is not a forgery
+                    if *comparable && same == listed {
+                        continue;
+                    }
+                    rep.violate(
+                        "C18|forged-proof-accepted|apply_tx|labels-made-up,commitment-never-checked",
+                        format!("an ERG mint was accepted for a proof that took {} hash evaluations to write while claiming 2^{} sequential ones ({} hash, {:?}): {} micro-ERG created, recorded DOSC speed {} -> {}{}", forged.hash_calls, d, if tip910 { "TIP-910" } else { "legacy" }, net, nominal, prev_speed, new_speed, if *comparable { format!("; {} of the {} labels an honest proof lists are the graph's", same, listed) } else { String::new() }),
+                        json!({"net": format!("{:?}", net), "difficulty": d, "tip910": tip910, "hash_evaluations_spent": forged.hash_calls, "claimed_sequential_hashes": format!("2^{}", d), "micro_erg_created": nominal.to_string(), "dosc_speed_before": prev_speed.to_string(), "dosc_speed_after": new_speed.to_string(), "labels_equal_to_the_graphs": same, "labels_listed_by_an_honest_proof": listed, "apply_height": apply_h, "tx_hex": tx_hex(&tx)}),
+                    );
+                } else {
+                    rep.count("forged proofs refused");
+                }
+            }
+        }
+    }
+}
+
 pub fn run(p: &Params) -> Report {
     let mut rep = Report::new("C18");
+    forged_probes(p, &mut rep);
     rep.rule = "cases = DoscMint transactions applied to fabricated states: real MelPoW proofs generated with the harness's own legacy and TIP-910 hash functions (difficulty 1..10 quick, ..14 thorough), coin ages 1..200 at heights around 1.1 million and on young chains of 2..141 blocks (coins of the genesis block), previous DOSC speeds 1..10^6 so that the reward ranges from 0 to large, ERG created at reward-1 / reward / reward+1, on custom networks and on mainnet (age below/at/above 100); corruptions: flipped proof byte, dropped node, proof for another coin / another creation height, stated difficulty +-1, garbage data, several mints in one block. Oracle: accept iff data decodes, the proof verifies (reference call into melpow with the harness's hashers) for puzzle = keyed-hash(header at the coin's creation height, coin id), ERG <= floor(inflator(h) * floor(work*speed*10^6/(prev_speed^2*2880)) / 10^6), and on mainnet age >= 100; sealed dosc_speed = max(previous, speeds of accepted mints) and never decreases. Non-trivial = every case; distinct by transaction hash".into();
     let total = p.n(4000, 80000);
     let mine = p.share(total);
